@@ -229,6 +229,8 @@ def generate(prng, tier, index):
           "mono_grid": prng.random() < 0.35 and (tier == "thorough" or iters <= 8),
           "cover_type": prng.choice(("motif cover", "MPCC", "")),
           "set_order": prng.choice(("natural", "natural", "reversed", "rotated", "shuffled"))}
+    if prng.random() < 0.15:
+        sc["phi_type"] = "np_float64"                     # queries on the shared object pass phi as a numpy scalar
     if nq >= 2 and prng.random() < 0.25:
         # the caller edits the network IN PLACE between two queries on the same object: a new single-edge motif is hung on an
         # existing vertex (edge-disjoint, shares one vertex); later queries are judged against the edited network
@@ -406,7 +408,11 @@ def _execute(sc, ctx):
                 ctx.fault("operand_raise")
                 faulted = True
                 tag = f" (query #{k}, phi={phi}, iterations={iters}, after an aborted query on this object)"
-        st, val = ctx.call(src, shared.theoretical, phi, label="theoretical")
+        phi_arg = phi
+        if sc.get("phi_type") == "np_float64":
+            import numpy as np
+            phi_arg = np.float64(phi)
+        st, val = ctx.call(src, shared.theoretical, phi_arg, label="theoretical")
         if st != "ok":
             ctx.violate(f"{P}.raised", f"theoretical: {st} {describe_exc(val) if st == 'raised' else ''}{tag}")
             return
